@@ -307,7 +307,8 @@ def find_loops(text, masked=None):
 def find_closure(text, let_name, masked=None):
     """`let NAME = [move] |params| { body };` -> dict(start, params(str), open, close, end(after ';'))."""
     masked = masked if masked is not None else mask(text)
-    m = re.search(r'\blet\s+(?:mut\s+)?' + re.escape(let_name) + r'\s*=\s*(?:move\s+)?\|', masked)
+    # `let NAME = [move] |..| {..};`  or  `let NAME = EXPR.map([move] |..| {..});` (closure passed to an adaptor)
+    m = re.search(r'\blet\s+(?:mut\s+)?' + re.escape(let_name) + r'\s*=\s*[^|;{}]*?(?:move\s+)?\|', masked)
     if not m:
         raise AnchorLost('closure let %s not found' % let_name)
     p0 = m.end()
@@ -320,7 +321,7 @@ def find_closure(text, let_name, masked=None):
     ob = k
     cb = match_close(masked, ob)
     e = cb + 1
-    while masked[e].isspace():
+    while masked[e].isspace() or masked[e] == ')':
         e += 1
     if masked[e] == ';':
         e += 1
